@@ -14,7 +14,8 @@ RULE = ('E1: every public encoder (21 functions of pamqp.encode, by_type '
         'with every type name) x an adversarial alphabet per parameter type '
         '(integers +-1 around every width limit incl. negatives and > 64 '
         'bit, non-finite floats, Decimals of every exponent -300..+12 x 3 '
-        'coefficients x sign, NaN/Infinity, 1..40 digits, datetimes from '
+        'coefficients x sign, NaN/Infinity, 1..45 significant digits incl. '
+        'values that round to a short coefficient, datetimes from '
         'year 1 to 9999 naive/aware, oversize strings, wrong types, falsy '
         'non-dicts for tables); encode.bit over value x byte x position; '
         'every argument of every method class and every property x the '
@@ -59,6 +60,16 @@ def decimals(tier):
         out.append(D('9' * digits))
         out.append(D('0.' + '1' * digits))
         out.append(D('-' + '7' * digits + 'E-%d' % digits))
+    # more significant digits than the default context precision (28) whose
+    # rounding is short: an encoder that rounds silently would accept them
+    for k in range(1, 45):
+        out.append(D('1.' + '0' * (k - 1) + '1'))
+        out.append(D('-1.' + '0' * (k - 1) + '1'))
+        out.append(D('2.4' + '9' * k))
+        out.append(D('0.' + '9' * k))
+        out.append(D('12345.' + '0' * k + '1'))
+        out.append(D('5E-%d' % k) + D(3))
+        out.append(D('1' + '0' * k + '.5'))
     out += [D('NaN'), D('sNaN'), D('Infinity'), D('-Infinity'), D('-0'),
             D('0'), D('0.00'), D('0E-255'), D('0E-256'), D('0E+5'),
             D('1.10'), D('-1.5'), D('2147483648'), D('-2147483649'),
